@@ -27,14 +27,29 @@ type memberSet struct{ M, S map[string]bool }
 // produced and applied, else the genesis magic block.
 func prevSet(w *world.World, v *vcView) memberSet {
 	ps := memberSet{map[string]bool{}, map[string]bool{}}
-	if v.GN != nil && v.GN.PrevMagicBlock != nil && v.MB != nil && v.GN.PrevMagicBlock.MagicBlockNumber == v.MB.MagicBlockNumber {
-		for _, n := range v.MB.Miners.Nodes {
-			ps.M[n.GetKey()] = true
+	// NOTE: the engine never finalizes blocks, so the chain's "latest finalized magic block" stays the
+	// genesis one and every magic block the contract produces carries number genesis+1; magic blocks
+	// are therefore told apart by their starting round, never by their number.
+	if v.GN != nil && v.GN.PrevMagicBlock != nil {
+		pm := v.GN.PrevMagicBlock
+		if pm.Miners != nil && len(pm.Miners.Nodes) > 0 {
+			for _, n := range pm.Miners.Nodes {
+				ps.M[n.GetKey()] = true
+			}
+			for _, n := range pm.Sharders.Nodes {
+				ps.S[n.GetKey()] = true
+			}
+			return ps
 		}
-		for _, n := range v.MB.Sharders.Nodes {
-			ps.S[n.GetKey()] = true
+		if v.MB != nil && pm.StartingRound == v.MB.StartingRound {
+			for _, n := range v.MB.Miners.Nodes {
+				ps.M[n.GetKey()] = true
+			}
+			for _, n := range v.MB.Sharders.Nodes {
+				ps.S[n.GetKey()] = true
+			}
+			return ps
 		}
-		return ps
 	}
 	for _, a := range w.Miners {
 		ps.M[a.ID] = true
@@ -311,7 +326,7 @@ func vcMonitor(s *chainsim.Step, v func(key, what string)) {
 	// produced magic block
 	if v1.Phase == 3 {
 		ps := prevSet(w, v1)
-		if v2.MB == nil || (v1.MB != nil && v2.MB.MagicBlockNumber == v1.MB.MagicBlockNumber) {
+		if v2.MB == nil || (v1.MB != nil && v2.MB.StartingRound == v1.MB.StartingRound) {
 			v("C38:createMagicBlockForWait:no-magic-block-produced", "publish -> wait without a new magic block")
 			return
 		}
